@@ -160,6 +160,14 @@ pub mod absolute {
     impl LockTime { pub fn to_consensus_u32(self) -> (r: u32) ensures r == self.n { self.n } }
     }
 }
+// bitcoin::relative::LockTime keeps only what BIP68 looks at (type flag bit 22 and the low 16 bits)
+pub mod relative {
+    use vstd::prelude::*;
+    verus!{
+    pub struct LockTime { pub n: u32 }
+    impl LockTime { pub fn to_consensus_u32(self) -> (r: u32) ensures r == self.n { self.n } }
+    }
+}
 pub mod context {
     use vstd::prelude::*;
     verus!{
@@ -189,6 +197,8 @@ impl hash160::Hash { fn to_byte_array(self) -> (r: [u8; 20]) ensures r == self.0
 #[verifier::external_body]
 fn i64_from_u32(x: u32) -> (r: i64) ensures r == x { i64::from(x) }
 fn absolute_locktime_from(t: AbsLockTime) -> (r: absolute::LockTime) ensures r.n == t.consensus() { absolute::LockTime { n: t.0 } }
+#[verifier::external_body]
+fn relative_locktime_from(t: RelLockTime) -> (r: relative::LockTime) ensures r.n == (t.consensus() & 0x0040_ffffu32) { unimplemented!() }
 trait ToPublicKey: MiniscriptKey {
     spec fn spec_to_public_key(&self) -> bitcoin::PublicKey;
     fn to_public_key(&self) -> (r: bitcoin::PublicKey) ensures r == self.spec_to_public_key();
@@ -427,6 +437,7 @@ def build(repo):
              "bitcoin::script::Builder appends the byte rendering of exactly that item (push_verify fuses into a preceding EQUAL/NUMEQUAL/CHECKSIG/CHECKMULTISIG); "
              "number pushes are backed by the Kani unit k04_pushint")
     vf.trust("script::Builder::push_astelem stub appends Item::Sub(child)", "cuts the recursion sub.node.encode(builder): structural induction hypothesis")
+    vf.trust("relative_locktime_from (external_body)", "bitcoin: relative::LockTime::from(RelLockTime) keeps the BIP68 type flag and the low 16 bits only")
     vf.trust("i64_from_u32 (external_body)", "std `From<u32> for i64` / `Into<i64> for u32`: lossless widening (this vstd has no spec for it)")
     vf.trust("ToPublicKey stub, From<AbsLockTime> for absolute::LockTime", "trait reduced to the methods encode calls, each with a spec twin; the conversion returns the wrapped lock time")
     vf.raw(NARY_SPEC)
@@ -448,8 +459,9 @@ def build(repo):
     # ---- Terminal::encode -------------------------------------------------------------------------
     with vf.block("impl<Pk: MiniscriptKey, Ctx: ScriptContext> Terminal<Pk, Ctx>"):
         vf.fn(ASTELEM, "impl:Terminal<Pk, Ctx>/fn:encode", qual="Terminal", props=("C04", "C11"), contract=encode_contract(), cases=encode_cases(), rewrites=[
-            lit("R7", "absolute::LockTime::from(t)", "absolute_locktime_from(t)"),
-            sub("R7", r"\.push_int\(([^;\n]*?)\.into\(\)\)", r".push_int(i64_from_u32(\1))"),
+            lit("R7", "absolute::LockTime::from(t)", "absolute_locktime_from(t)", required=False),
+            lit("R7", "relative::LockTime::from(t)", "relative_locktime_from(t)", required=False),
+            sub("R7", r"\.push_int\(([^;\n]*?)\.into\(\)\)", r".push_int(i64_from_u32(\1))", required=False),
             # R8: slice for-loop -> index loop (body verbatim)
             sub("R8", r"for sub in &thresh\.data\(\)\[(\w+)\.\.\] \{",
                 "let ghost b0 = builder@;\n                let mut i: usize = \\1;\n                while i < thresh.data().len()\n"
